@@ -157,9 +157,65 @@ func c13(c *Ctx) {
 				continue
 			}
 			force := fn.Params[2]
+			isCfg := func(x ssa.Value) bool {
+				t := tb.Of(x, nil)
+				return t.Op == "field:"+field && len(t.Args) == 1 && t.Args[0].Op == "field:Config"
+			}
+			// a boolean helper that can only say yes when (its force argument) or (its configured argument == nil)
+			guardHelper := func(v ssa.Value) bool {
+				call, ok := v.(*ssa.Call)
+				if !ok {
+					return false
+				}
+				h := ir.Callee(call).Static
+				if h == nil || len(h.Blocks) == 0 || len(h.Blocks) > 8 || h.Signature.Results().Len() != 1 || call.Call.IsInvoke() {
+					return false
+				}
+				var forceP, cfgP *ssa.Parameter
+				for i, a := range call.Call.Args {
+					if i >= len(h.Params) {
+						break
+					}
+					if ir.Resolve(a) == ssa.Value(force) {
+						forceP = h.Params[i]
+					} else if isCfg(a) {
+						cfgP = h.Params[i]
+					}
+				}
+				if forceP == nil && cfgP == nil {
+					return false
+				}
+				yes := false
+				ir.Search{StopEdge: func(b *ssa.BasicBlock, si int) bool {
+					fs := ir.EdgeFacts(b, si)
+					if forceP != nil && ir.HasBool(fs, true, func(x ssa.Value) bool { return x == ssa.Value(forceP) }) {
+						return true
+					}
+					return cfgP != nil && ir.HasFact(fs, token.EQL, func(x, y ssa.Value) bool { return x == ssa.Value(cfgP) && ir.IsNilConst(y) })
+				}}.Reach([]ir.Point{{Block: h.Blocks[0]}}, func(ins ssa.Instruction, via *ssa.BasicBlock) {
+					if rt, ok := ins.(*ssa.Return); ok {
+						rv := ir.ResultVia(rt, 0, via)
+						if k, isConst := ir.ConstBool(rv); !isConst || k {
+							// a non-constant result may still be exactly one of the admitted tests
+							if !isConst {
+								for _, f := range ir.CondFacts(rv, true) {
+									if forceP != nil && f.Bool != nil && f.Truth && f.Bool == ssa.Value(forceP) {
+										return
+									}
+									if cfgP != nil && f.Op == token.EQL && f.X == ssa.Value(cfgP) && ir.IsNilConst(f.Y) {
+										return
+									}
+								}
+							}
+							yes = true
+						}
+					}
+				})
+				return !yes
+			}
 			allow := func(b *ssa.BasicBlock, si int) bool {
 				fs := ir.EdgeFacts(b, si)
-				if ir.HasBool(fs, true, func(v ssa.Value) bool { return v == ssa.Value(force) }) {
+				if ir.HasBool(fs, true, func(v ssa.Value) bool { return v == ssa.Value(force) || guardHelper(v) }) {
 					return true
 				}
 				return ir.HasFact(fs, token.EQL, func(x, y ssa.Value) bool {
@@ -272,6 +328,22 @@ func c13(c *Ctx) {
 					}
 				}
 			}
+			// a private helper of the fan type that stores one of its fields
+			if cc, ok := ins.(ssa.CallInstruction); ok {
+				if cal := ir.Callee(cc).Static; cal != nil && cal != fn && load_FuncPkgPath(cal) == PkgFans && cal.Signature.Recv() != nil && len(cal.Blocks) > 0 {
+					stores := false
+					Instrs(cal, func(i2 ssa.Instruction) {
+						if st, ok := i2.(*ssa.Store); ok {
+							if fa, ok := st.Addr.(*ssa.FieldAddr); ok {
+								if n := ir.NamedOf(fa.X.Type()); n != nil && isFanType(n) {
+									stores = true
+								}
+							}
+						}
+					})
+					return stores
+				}
+			}
 			return false
 		}
 		Instrs(fn, func(ins ssa.Instruction) {
@@ -288,39 +360,46 @@ func c13(c *Ctx) {
 			continue
 		}
 		data := fn.Params[1]
-		var nilEdgesD, emptyEdges []edge
-		for _, b := range fn.Blocks {
-			for si := range b.Succs {
-				fs := ir.EdgeFacts(b, si)
-				if ir.HasFact(fs, token.EQL, func(x, y ssa.Value) bool { return x == ssa.Value(data) && ir.IsNilConst(y) }) {
-					nilEdgesD = append(nilEdgesD, edge{b, si})
-				}
-				if ir.HasFact(fs, token.LEQ, func(x, y ssa.Value) bool {
-					k, isConst := ir.ConstInt(y)
-					call, isCall := x.(*ssa.Call)
-					return isConst && k == 0 && isCall && ir.Callee(call).Builtin == "len" && tb.Of(call.Call.Args[0], nil).Has(func(t *ir.Term) bool { return t.Val == ssa.Value(data) })
-				}) || ir.HasFact(fs, token.EQL, func(x, y ssa.Value) bool {
-					k, isConst := ir.ConstInt(y)
-					call, isCall := x.(*ssa.Call)
-					return isConst && k == 0 && isCall && ir.Callee(call).Builtin == "len" && tb.Of(call.Call.Args[0], nil).Has(func(t *ir.Term) bool { return t.Val == ssa.Value(data) })
-				}) || ir.HasFact(fs, token.LSS, func(x, y ssa.Value) bool {
-					k, isConst := ir.ConstInt(y)
-					call, isCall := x.(*ssa.Call)
-					return isConst && k == 1 && isCall && ir.Callee(call).Builtin == "len" && tb.Of(call.Call.Args[0], nil).Has(func(t *ir.Term) bool { return t.Val == ssa.Value(data) })
-				}) {
-					emptyEdges = append(emptyEdges, edge{b, si})
-				}
-			}
+		tbp := ir.NewTB(c.P.IsRepoFunc, c.P.FuncKey)
+		tbp.InlineMaxBlocks = 0
+		tbp.ParamCallers = c.StaticCallers
+		isData := func(v ssa.Value) bool {
+			return v == ssa.Value(data) || ir.RootP(v, c.StaticCallers) == ssa.Value(data)
+		}
+		lenOfData := func(x ssa.Value) bool {
+			call, isCall := x.(*ssa.Call)
+			return isCall && ir.Callee(call).Builtin == "len" && tbp.Of(call.Call.Args[0], nil).Has(func(t *ir.Term) bool { return t.Val == ssa.Value(data) })
+		}
+		// edges establishing "data != nil" / "len(*data) > 0" (directly or through a small boolean helper)
+		establishes := map[string]func(fs []ir.Fact) bool{
+			"nil-data": func(fs []ir.Fact) bool {
+				return ir.HasFact(fs, token.NEQ, func(x, y ssa.Value) bool { return isData(x) && ir.IsNilConst(y) })
+			},
+			"empty-data": func(fs []ir.Fact) bool {
+				return ir.HasFact(fs, token.GTR, func(x, y ssa.Value) bool { k, ok := ir.ConstInt(y); return ok && k == 0 && lenOfData(x) }) ||
+					ir.HasFact(fs, token.GEQ, func(x, y ssa.Value) bool { k, ok := ir.ConstInt(y); return ok && k == 1 && lenOfData(x) }) ||
+					ir.HasFact(fs, token.NEQ, func(x, y ssa.Value) bool { k, ok := ir.ConstInt(y); return ok && k == 0 && lenOfData(x) })
+			},
 		}
 		ei := errResultIndex(fn)
-		for name, es := range map[string][]edge{"nil-data": nilEdgesD, "empty-data": emptyEdges} {
+		for _, name := range []string{"nil-data", "empty-data"} {
 			k := key + "|" + name
-			if len(es) == 0 {
+			est := establishes[name]
+			found := false
+			for _, b := range fn.Blocks {
+				for si := range b.Succs {
+					if est(ir.EdgeFacts(b, si)) {
+						found = true
+					}
+				}
+			}
+			if !found {
 				c.R.Bad("R-empty", k, key, c.P.Pos(fn.Pos()), "the "+name+" case is not tested before limits are derived")
 				continue
 			}
+			// without crossing an establishing edge: no effect, no success
 			bad := ""
-			ir.Search{}.Reach(edgeStarts(es), func(ins ssa.Instruction, via *ssa.BasicBlock) {
+			ir.Search{StopEdge: func(b *ssa.BasicBlock, si int) bool { return est(ir.EdgeFacts(b, si)) }}.Reach([]ir.Point{{Block: fn.Blocks[0]}}, func(ins ssa.Instruction, via *ssa.BasicBlock) {
 				if isEffect(ins) {
 					bad = "limits/curve data are changed at " + c.P.Pos(ins.Pos())
 				}
@@ -334,7 +413,7 @@ func c13(c *Ctx) {
 			if bad != "" {
 				c.R.Bad("R-empty", k, key, c.P.Pos(fn.Pos()), "with "+name+" the function does not refuse: "+bad)
 			} else {
-				c.R.Ok("R-empty", k, key, c.P.Pos(fn.Pos()), "on the "+name+" edge a non-nil error is returned before any limit or the curve data is touched")
+				c.R.Ok("R-empty", k, key, c.P.Pos(fn.Pos()), "unless the opposite of "+name+" is established, a non-nil error is returned before any limit or the curve data is touched")
 			}
 		}
 		// and no effect before the tests: every effect is reachable only across the negations
@@ -450,6 +529,31 @@ func c13(c *Ctx) {
 			return false
 		}
 		isReplace := func(ins ssa.Instruction) bool {
+			// a private setter of the same type that always stores its parameter into the field
+			if cc, ok := ins.(ssa.CallInstruction); ok {
+				cal := ir.Callee(cc).Static
+				if cal != nil && cal != attach && load_FuncPkgPath(cal) == PkgFans && cal.Signature.Recv() != nil && len(cal.Params) == 2 && len(cc.Common().Args) == 2 && fresh(cc.Common().Args[1]) {
+					missedStore := false
+					ir.Search{StopInstr: func(i2 ssa.Instruction) bool {
+						st, ok := i2.(*ssa.Store)
+						if !ok {
+							return false
+						}
+						fa, ok := st.Addr.(*ssa.FieldAddr)
+						if !ok {
+							return false
+						}
+						_, n, _ := ir.FieldName(fa)
+						return n == field && ir.Resolve(st.Val) == ssa.Value(cal.Params[1])
+					}}.Reach([]ir.Point{{Block: cal.Blocks[0], Idx: 0}}, func(i2 ssa.Instruction, _ *ssa.BasicBlock) {
+						if _, isRet := i2.(*ssa.Return); isRet {
+							missedStore = true
+						}
+					})
+					return !missedStore
+				}
+				return false
+			}
 			st, ok := ins.(*ssa.Store)
 			if !ok {
 				return false
